@@ -114,7 +114,7 @@ func (s *Snapshot) hashInto(h interface{ Write([]byte) (int, error) }, clock boo
 		fmt.Fprintf(h, "H%d T%d X%d;", s.Height, s.Time, s.TxCount)
 	}
 	for _, v := range s.Staking {
-		fmt.Fprintf(h, "V%s:%v:%d:%v;", v.Oper, v.Bonded, v.Power, v.Unbonding)
+		fmt.Fprintf(h, "V%s:%v:%d:%v:%v;", v.Oper, v.Bonded, v.Power, v.Unbonding, v.Jailed)
 	}
 }
 
@@ -391,6 +391,7 @@ func (in *Instance) EndBlock() *Panic {
 		panic("EndBlock: no open block")
 	}
 	ctx := in.ctxOn(in.blockMS)
+	in.Staking.EndBlocker() // app.go: staking's EndBlocker runs before mhub2's
 	p := guard("mhub2.EndBlocker", func() { mhub2.EndBlocker(ctx, in.Hub) })
 	if p == nil {
 		p = guard("oracle.EndBlocker", func() { oracle.EndBlocker(ctx, in.Oracle) })
@@ -401,6 +402,19 @@ func (in *Instance) EndBlock() *Panic {
 	}
 	in.blockMS = nil
 	return p
+}
+
+// IdleBlocks ends the open block, lets n-1 blocks pass in which nothing happens (height and time advance; an
+// empty block changes nothing in these modules when no pool entry, batch or vote is waiting for a height or time
+// that lies inside the skipped span - whatever waits is handled by the block that is run next) and opens the
+// n-th block after the current one.
+func (in *Instance) IdleBlocks(n, dt int64) *Panic {
+	if p := in.EndBlock(); p != nil {
+		return p
+	}
+	in.Height += n - 1
+	in.Time += (n - 1) * dt
+	return in.BeginBlock(dt)
 }
 
 // NextBlock = EndBlock of the open block + BeginBlock of the next one dt seconds later.
@@ -502,6 +516,54 @@ func (in *Instance) DeliverMsg(msg sdk.Msg) TxResult {
 		res.Data = r.Data
 		in.Events = append(in.Events, r.Events...)
 	}
+	return res
+}
+
+// DeliverMsgs runs ONE transaction carrying several messages: one TxBytes (so one tx hash for mhub2's status and
+// fee records), one tx-scoped cache written only if every message succeeds.
+func (in *Instance) DeliverMsgs(msgs ...sdk.Msg) TxResult {
+	if in.blockMS == nil {
+		panic("DeliverMsgs: no open block")
+	}
+	txBytes := []byte(fmt.Sprintf("verif-tx-%d", in.TxCount+1))
+	sum := sha256.Sum256(txBytes)
+	res := TxResult{TxHash: fmt.Sprintf("%x", sum)}
+	txMS := in.blockMS.CacheMultiStore()
+	ctx := in.ctxOn(txMS).WithTxBytes(txBytes)
+	for _, msg := range msgs {
+		bz, err := in.Cdc.MarshalInterface(msg)
+		if err != nil {
+			res.Err = err
+			return res
+		}
+		var dec sdk.Msg
+		if err := in.Cdc.UnmarshalInterface(bz, &dec); err != nil {
+			res.Err = err
+			return res
+		}
+		if v, ok := dec.(validatable); ok {
+			if err := v.ValidateBasic(); err != nil {
+				res.Err = err
+				return res
+			}
+		}
+		var r *sdk.Result
+		res.Panic = guard("DeliverTx", func() { r, err = in.hubH(ctx, dec) })
+		if res.Panic != nil {
+			return res
+		}
+		if err != nil {
+			res.Err = err
+			return res
+		}
+		if r != nil {
+			res.Events = append(res.Events, r.Events...)
+			res.Data = r.Data
+		}
+	}
+	txMS.Write()
+	in.TxCount++
+	in.Events = append(in.Events, res.Events...)
 	return res
 }
 
